@@ -1,7 +1,7 @@
 // Translation unit for the users of the spacing decision (C19-K2, C02-K3): ensure_force_space, do_space_ensured,
 // space_needed, space_col_align of src/space.cpp, verbatim.  do_space itself (proved in space.impl.cpp) is reached
 // through an adapter onto a C-typed function that is replaced by its result contract.
-#include "/repo/src/token_enum.h"
+#include "token_enum.h"      /* from the working tree: -I <repo>/src */
 #define VERIF_E_TOKEN
 #include "base.h"
 #include "containers.h"
